@@ -421,3 +421,85 @@ sorted_nodes = FunctionContract(
     canary=[("self.nodes[n_idx].get('atomid', np.inf)", "self.nodes[n_idx].get('atomid', np.inf) + 1")],
 )
 CONTRACTS.append(sorted_nodes)
+
+
+# ------------------------------------------------------------------ _interaction_sorting_key: the guard and group of a line
+def setup_isk(cx):
+    vals = {k: cx.val(k, TOpt(TStr)) for k in ('ifdef', 'ifndef', 'group')}
+    cx.spec_env.update(vals)
+
+    def get(e, k, d=None):
+        if k not in vals or d is not None:
+            raise EngineError('meta.get(%r, %r)' % (k, d))
+        return vals[k]
+    return dict(interaction=Obj('Interaction', meta=Obj('meta', get=Builtin(get, 'meta.get'))))
+
+
+interaction_sorting_key = FunctionContract(
+    F, '_interaction_sorting_key', 'C02', setup=setup_isk,
+    ensures=[
+        # the key under which interactions are grouped: the preprocessor guard - (macro, True) for #ifdef, (macro, False) for
+        # #ifndef, () for none - and the group name ('' for none)
+        "result[1] == ('' if group is None else group)",
+        "implies(ifdef is not None, result[0] == (ifdef, True))",
+        "implies(ifdef is None and ifndef is not None, result[0] == (ifndef, False))",
+        "implies(ifdef is None and ifndef is None, result[0] == ())",
+    ],
+    # both guards at once: ValueError
+    raises={'ValueError': ["ifdef is not None and ifndef is not None"]},
+    canary=[("conditional = (ifndef, False)", "conditional = (ifndef, True)"),
+            ("if ifdef is not None and ifndef is not None:", "if ifdef is not None or ifndef is not None:")],
+)
+CONTRACTS.append(interaction_sorting_key)
+
+
+# ------------------------------------------------------------------ Molecule.sort_interactions: the order of the sections
+SType, SAtoms = TKey('SType'), TKey('SAtom')
+SInter = TTuple(TSeq(SAtoms), names=['atoms'])
+SKey = TTuple(TInt, SType)
+
+
+def setup_si(cx):
+    ALL = cx.val('all_interactions', TMap(SType, TSeq(SInter)))
+    cx.spec_env['ALL'] = ALL
+    SORTKEY = cx.heap('SORTKEY', Box(TMap(SType, SKey)))    # what sorted() is given: the keys and, through the lambda, their sort key
+    SORTED = cx.heap('SORTED', Box(TSeq(SType)))
+
+    def sorted_(e, xs, key=None, reverse=False):
+        # sorted(d, key=f) by its contract: the keys of d arranged in increasing order of f(k), stably.  The contract records d
+        # and checks, for an arbitrary key, that f(k) is d[k]
+        if key is None or reverse is not False or not isinstance(xs, Box) or xs.ty != TMap(SType, SKey):
+            raise EngineError('sorted() of something else')
+        mt = xs.ty
+        k = SV(SType, z3.FreshConst(SType.sort(), 'sk'))
+        e.assume(mt.has(xs.e, k.e))
+        kv = e.call(key, [k], {})
+        e.oblige(to_z3(kv, SKey) == mt.at(xs.e, k.e), 'sort-key:is-the-recorded-pair')
+        SORTKEY.e = xs.e
+        out = e.fresh_val(TSeq(SType), 'sorted')
+        SORTED.e = out.e
+        return out
+    cx.spec_env['sorted'] = Builtin(sorted_, 'sorted')
+    return dict(all_interactions=ALL)
+
+
+sort_interactions = FunctionContract(
+    'vermouth/molecule.py', 'Molecule.sort_interactions', 'C02', setup=setup_si, spec_env=dict(SType=SType),
+    locals=dict(sort_keys=TMap(SType, SKey)), result_ty=TSeq(SType),
+    ensures=[
+        # the sections are the interaction types that have at least one interaction, arranged by sorted() under the key
+        # (number of atoms of the type's first interaction, type name)
+        "forall(lambda t: (t in SORTKEY) == (t in ALL and len(ALL[t]) > 0), SType)",
+        "forall(lambda t: implies(t in SORTKEY, SORTKEY[t][0] == len(ALL[t][0].atoms) and SORTKEY[t][1] == t), SType)",
+        "len(result) == len(SORTED) and forall(lambda i: implies(0 <= i and i < len(result), result[i] == SORTED[i]))",
+    ],
+    modifies=['SORTKEY', 'SORTED'],
+    loops={'L1': LoopSpec(inv=[
+        "forall(lambda t: (t in sort_keys) == (t in ALL and posof(ALL, t) < _i and len(ALL[t]) > 0), SType)",
+        "forall(lambda t: implies(t in sort_keys, sort_keys[t][0] == len(ALL[t][0].atoms) and sort_keys[t][1] == t), SType)"],
+        modifies=['sort_keys'])},
+    canary=[("if not interactions:\n                continue", "if not interactions:\n                break"),
+            ("sort_keys[interaction_type] = len(interactions[0].atoms), interaction_type", "sort_keys[interaction_type] = len(interactions), interaction_type"),
+            ("return sorted(sort_keys, key=lambda k: sort_keys[k])", "return sorted(sort_keys, key=lambda k: sort_keys[k][::-1])")],
+)
+CONTRACTS.append(sort_interactions)
